@@ -150,3 +150,64 @@ func VH_C04_binaryUntyped_shl()       { vhUntypedShift(token.SHL) }
 func VH_C04_binaryUntyped_shr()       { vhUntypedShift(token.SHR) }
 func VH_C04_binaryUntyped_shlAssign() { vhUntypedShift(token.SHL_ASSIGN) }
 func VH_C04_binaryUntyped_shrAssign() { vhUntypedShift(token.SHR_ASSIGN) }
+
+// typed constant expressions: x op y on two int8 (resp. uint8) constants is rejected exactly when the exact result does
+// not fit the type (Go: "constant 200 overflows int8"), otherwise it is the constant with that value
+func vhTypedConstBinary(op token.Token, signed bool) {
+	c := vhUntypedComp()
+	var x, y *Expr
+	var xi, yi, lo, hi int64
+	if signed {
+		a, b := vhI8("x"), vhI8("y")
+		x, y = vhExprValue(vhTypeOf(a), a), vhExprValue(vhTypeOf(b), b)
+		xi, yi, lo, hi = int64(a), int64(b), -128, 127
+	} else {
+		a, b := vhU8("x"), vhU8("y")
+		x, y = vhExprValue(vhTypeOf(a), a), vhExprValue(vhTypeOf(b), b)
+		xi, yi, lo, hi = int64(a), int64(b), 0, 255
+	}
+	vhAssume(op != token.QUO || yi != 0)
+	var e *Expr
+	failed := false
+	func() {
+		defer func() {
+			if recover() != nil {
+				failed = true
+			}
+		}()
+		e = c.BinaryExpr1(&ast.BinaryExpr{Op: op}, x, y)
+	}()
+	var exact int64
+	switch op {
+	case token.ADD:
+		exact = xi + yi
+	case token.SUB:
+		exact = xi - yi
+	case token.MUL:
+		exact = xi * yi
+	case token.QUO:
+		exact = xi / yi
+	}
+	fits := lo <= exact && exact <= hi
+	vhAssert(failed == !fits, "a typed constant expression is rejected exactly when its exact value overflows the type")
+	if !failed && fits {
+		vhAssert(e.Const(), "the result is a constant")
+		if signed {
+			v, ok := e.Value.(int8)
+			vhAssert(ok && int64(v) == exact, "with the exact value")
+		} else {
+			v, ok := e.Value.(uint8)
+			vhAssert(ok && int64(v) == exact, "with the exact value")
+		}
+	}
+	vhReach("end")
+}
+
+func VH_C04_typedConst_int8_add()  { vhTypedConstBinary(token.ADD, true) }
+func VH_C04_typedConst_int8_sub()  { vhTypedConstBinary(token.SUB, true) }
+func VH_C04_typedConst_int8_mul()  { vhTypedConstBinary(token.MUL, true) }
+func VH_C04_typedConst_int8_quo()  { vhTypedConstBinary(token.QUO, true) }
+func VH_C04_typedConst_uint8_add() { vhTypedConstBinary(token.ADD, false) }
+func VH_C04_typedConst_uint8_sub() { vhTypedConstBinary(token.SUB, false) }
+func VH_C04_typedConst_uint8_mul() { vhTypedConstBinary(token.MUL, false) }
+func VH_C04_typedConst_uint8_quo() { vhTypedConstBinary(token.QUO, false) }
